@@ -150,8 +150,83 @@ def classify(prog, body, h, nodes, al):
     c = _counter(body, h, nodes)
     if c:
         return 'counter', c
+    # ---- (d) collector: `while out.len() < bound { .. out.push(x) .. }` with a push on every cycle
+    c = _collector(body, h, nodes, al)
+    if c:
+        return 'collector', c
     return 'unclassified', '; '.join(why_not) or 'no iterator / counter / work-list idiom recognised'
 
+
+
+def _collector(body, h, nodes, al):
+    """The loop runs while `X.len()` is below a loop-invariant bound (the comparison decides an exiting edge), every
+    cycle through the header pushes onto X, and nothing in the loop shrinks X: at most `bound` iterations."""
+    import valueflow
+    uses = flow._collect_uses(body)
+    for bb in sorted(nodes):
+        t = body.blocks[bb].term
+        if t.k != 'call' or (t.callee or t.resolved or '').rsplit('::', 1)[-1] != 'len' or not t.args or t.dest is None or \
+                not t.dest.is_local():
+            continue
+        tt = al.operand_target(t.args[0])
+        if tt is None:
+            continue
+        X = (tt[0], tt[1])
+        # the length feeds a comparison that decides an exiting edge
+        exits = False
+        bound_ok = False
+        work = [t.dest.local]
+        seen = set()
+        while work:
+            l = work.pop()
+            if l in seen:
+                continue
+            seen.add(l)
+            for (ubb, _, node, how) in uses.get(l, []):
+                if ubb not in nodes:
+                    continue
+                if how == 'stmt' and node.rv.k == 'use' and node.place.is_local():
+                    work.append(node.place.local)
+                elif how == 'stmt' and node.rv.k == 'bin' and node.rv.raw.get('op') in ('Lt', 'Le', 'Gt', 'Ge', 'Ne') and node.place.is_local():
+                    other = [o for o in node.rv.ops if not (o.place is not None and o.place.local == l)]
+                    inv = True
+                    for o in other:
+                        if o.place is None:
+                            continue
+                        for leaf in valueflow.sources(body, al, o.place.local):
+                            if leaf[0] == 'call' and leaf[2] in nodes and \
+                                    (leaf[1].callee or leaf[1].resolved or '').rsplit('::', 1)[-1] not in ('add', 'sub', 'min', 'max', 'saturating_add'):
+                                inv = False
+                    for (sbb, _, snode, show) in uses.get(node.place.local, []):
+                        if show == 'switch' and sbb in nodes:
+                            tgts = [tg for _, tg in snode.values] + ([snode.otherwise] if snode.otherwise is not None else [])
+                            if any(tg not in nodes for tg in tgts):
+                                exits = True
+                                bound_ok = inv
+        if not exits or not bound_ok:
+            continue
+        pushes = set()
+        shrinks = []
+        for pb in sorted(nodes):
+            pt = body.blocks[pb].term
+            if pt.k != 'call' or not pt.args:
+                continue
+            nm = (pt.callee or pt.resolved or '').rsplit('::', 1)[-1]
+            for i, o in enumerate(pt.args):
+                ptt = al.operand_target(o)
+                if ptt is None or (ptt[0], ptt[1]) != X or not ptt[2]:
+                    continue
+                if nm in PUSH_NAMES and i == 0:
+                    pushes.add(pb)
+                elif nm not in ('len', 'is_empty', 'iter', 'as_slice', 'contains', 'last', 'first', 'get', 'deref', 'index'):
+                    shrinks.append((pb, nm))
+        if not pushes or shrinks:
+            continue
+        if _cycle_through_header_without(body, h, nodes, pushes):
+            continue
+        return 'exits when len() of a collection reaches a loop-invariant bound (block %d); every cycle pushes onto it (blocks %s)' % (
+            bb, sorted(pushes))
+    return None
 
 _POPW = {}
 
@@ -295,7 +370,8 @@ def _counter(body, h, nodes, need_all_cycles=True):
                 continue
             key = s.place.key()
             rv = s.rv
-            if rv.k == 'bin' and rv.raw['op'] in ('Add', 'AddWithOverflow', 'AddUnchecked', 'Sub', 'SubWithOverflow'):
+            if rv.k == 'bin' and rv.raw['op'] in ('Add', 'AddWithOverflow', 'AddUnchecked', 'Sub', 'SubWithOverflow', 'SubUnchecked',
+                                                  'Shr', 'ShrUnchecked', 'Div'):
                 a, b_ = rv.ops
                 if (a.place is not None and b_.int_value() is not None) or (b_.place is not None and a.int_value() is not None):
                     src = a.place if a.place is not None else b_.place
@@ -321,6 +397,25 @@ def _counter(body, h, nodes, need_all_cycles=True):
         rv = d[2].rv
         if rv.k == 'bin' and rv.raw['op'] in ('Lt', 'Le', 'Gt', 'Ge', 'Eq', 'Ne'):
             if h is None or not need_all_cycles or not _cycle_through_header_without(body, h, nodes, {bb}):
-                return 'counter compared (%s) on an exiting edge at block %d; increments at %s' % (
-                    rv.raw['op'], bb, sorted({b for v in incs.values() for (b, _) in v})[:4])
+                # the compared value must be a counter that every cycle advances
+                cmp_keys = set()
+                for o in rv.ops:
+                    if o.place is None:
+                        continue
+                    cmp_keys.add(o.place.key())
+                    l = o.place.local
+                    for _ in range(4):
+                        dd = body.single_def(l)
+                        if dd is None or dd[1] == 'term' or dd[2].rv.k != 'use' or not dd[2].rv.ops or dd[2].rv.ops[0].place is None:
+                            break
+                        cmp_keys.add(dd[2].rv.ops[0].place.key())
+                        l = dd[2].rv.ops[0].place.local
+                for (_k, lst) in incs.items():
+                    srcs = {src for (_b, src) in lst}
+                    if not (srcs & cmp_keys):
+                        continue
+                    inc_blocks = {b_ for (b_, src) in lst if src in cmp_keys}
+                    if h is None or not need_all_cycles or not _cycle_through_header_without(body, h, nodes, inc_blocks):
+                        return 'counter compared (%s) on an exiting edge at block %d; advanced on every cycle at %s' % (
+                            rv.raw['op'], bb, sorted(inc_blocks)[:4])
     return None
